@@ -128,11 +128,21 @@ class SourceRef:
         return (self.lineno, self.offset, self.file, self.length)
 
     @staticmethod
+    def start_compilation():
+        """The reference table belongs to one MIR, like its input and literal tables: each
+        compilation numbers the references of its own elements from 0."""
+        global next_index
+        REFS.clear()
+        index_map.clear()
+        next_index = 0
+
+    @staticmethod
     def get_sources():
-        """Get all sources."""
-        return USED_SOURCES
+        """The text of every file that a reference of the current MIR names."""
+        named = {ref["file"] for ref in REFS}
+        return {name: text for name, text in USED_SOURCES.items() if name in named}
 
     @staticmethod
     def get_refs():
-        """Get all refs."""
-        return REFS
+        """The references of the current MIR."""
+        return list(REFS)
